@@ -1,4 +1,5 @@
 import KG.Lemmas.LimiterLoop
+import KG.Props.C09
 /-!
 # C07 in the closed loop "N gateway instances ⇄ sharded limiter server" (`KG.Model.LimiterLoop`)
 
@@ -11,25 +12,25 @@ validation accepts (`0 ≤ local ≤ global ≤ 2^31−1`).
 -/
 namespace KG.Props.C07.Loop
 open KG KG.Model KG.Model.LimiterLoop KG.Spec.LimiterLoop KG.Lemmas.LimiterLoop
-open KG.Model.Alloc (sumQ onesQ lookupD)
+open KG.Model.Alloc (sumQ onesQ lookupD setQuota)
 open RemoteLimiter (bound maxInt32)
 
 /-- the state after an op history from the initial state -/
-def reach (shardOf : Nat → Nat) (nShards nGw : Nat) (k8s : Bool) (ops : List Op) : State :=
-  run shardOf (init nShards nGw k8s) ops
+def reach (shardOf : Nat → Nat) (nShards nGw nUp : Nat) (k8s : Bool) (ops : List Op) : State :=
+  run shardOf (init nShards nGw nUp k8s) ops
 
 /-- the invariant of the composition holds in every reachable state -/
-theorem loop_inv (shardOf : Nat → Nat) (nShards nGw : Nat) (k8s : Bool) (ops : List Op) (hops : ∀ op ∈ ops, OpOK op) :
-    LInv (reach shardOf nShards nGw k8s ops) :=
-  linv_run shardOf ops _ (linv_init nShards nGw k8s) hops
+theorem loop_inv (shardOf : Nat → Nat) (nShards nGw nUp : Nat) (k8s : Bool) (ops : List Op) (hops : ∀ op ∈ ops, OpOK op) :
+    LInv (reach shardOf nShards nGw nUp k8s ops) :=
+  linv_run shardOf ops _ (linv_init nShards nGw nUp k8s) hops
 
 /-! ## 0. the judge applied to the real gateways and the real limiter server accepts every reachable model state -/
 
 /-- **main theorem**: after every history, for every upstream, no clause of the system-level judge is broken -/
-theorem loop_judge (shardOf : Nat → Nat) (nShards nGw : Nat) (k8s : Bool) (ops : List Op)
+theorem loop_judge (shardOf : Nat → Nat) (nShards nGw nUp : Nat) (k8s : Bool) (ops : List Op)
     (hops : ∀ op ∈ ops, OpOK op) (u : Nat) :
-    judgeU (obsU (reach shardOf nShards nGw k8s ops) u) = [] :=
-  judgeU_of_linv (loop_inv shardOf nShards nGw k8s ops hops) u
+    judgeU (obsU (reach shardOf nShards nGw nUp k8s ops) u) = [] :=
+  judgeU_of_linv (loop_inv shardOf nShards nGw nUp k8s ops hops) u
 
 /-! ## 1. system-level no over-commit -/
 
@@ -41,15 +42,15 @@ def liveObs (s : State) (u : Nat) : List GObs := (obsU s u).gws
     last answer, and the record is still there") together enforce at most `hi + #(recorded quotas equal to 1)`,
     `hi` being the largest global limit the server had in force since the record began. Gateways in local fallback
     are not in the sum: they enforce their local limit (`loop_instance_fallback`). -/
-theorem loop_no_overcommit (shardOf : Nat → Nat) (nShards nGw : Nat) (k8s : Bool) (ops : List Op)
+theorem loop_no_overcommit (shardOf : Nat → Nat) (nShards nGw nUp : Nat) (k8s : Bool) (ops : List Op)
     (hops : ∀ op ∈ ops, OpOK op) (u : Nat) (e : UpStore)
-    (he : aget (reach shardOf nShards nGw k8s ops).srv.ups u = some e)
-    (hdist : (((liveObs (reach shardOf nShards nGw k8s ops) u).filter (·.remote)).map (·.id)).Nodup)
-    (hsync : ∀ g ∈ liveObs (reach shardOf nShards nGw k8s ops) u, g.remote = true → holdsRecord e.srv.quotas g = true) :
-    sumRemote (liveObs (reach shardOf nShards nGw k8s ops) u) ≤ e.hi + onesQ e.srv.quotas := by
-  have hj := loop_judge shardOf nShards nGw k8s ops hops u
-  have hinv := loop_inv shardOf nShards nGw k8s ops hops
-  generalize reach shardOf nShards nGw k8s ops = s at *
+    (he : aget (reach shardOf nShards nGw nUp k8s ops).srv.ups u = some e)
+    (hdist : (((liveObs (reach shardOf nShards nGw nUp k8s ops) u).filter (·.remote)).map (·.id)).Nodup)
+    (hsync : ∀ g ∈ liveObs (reach shardOf nShards nGw nUp k8s ops) u, g.remote = true → holdsRecord e.srv.quotas g = true) :
+    sumRemote (liveObs (reach shardOf nShards nGw nUp k8s ops) u) ≤ e.hi + onesQ e.srv.quotas := by
+  have hj := loop_judge shardOf nShards nGw nUp k8s ops hops u
+  have hinv := loop_inv shardOf nShards nGw nUp k8s ops hops
+  generalize reach shardOf nShards nGw nUp k8s ops = s at *
   have hsrv : (obsU s u).srv = some (obsS e) := by simp [obsU, he]
   unfold judgeU at hj
   rw [hsrv] at hj
@@ -76,31 +77,31 @@ theorem loop_no_overcommit (shardOf : Nat → Nat) (nShards nGw : Nat) (k8s : Bo
     no live gateway is in local fallback, identities are distinct and every gateway holds what is on record for it, the
     sum over the live instances of the capacity each one actually enforces is at most `T` plus the number of instances
     held at the minimum quota 1. -/
-theorem loop_no_overcommit_agreed (shardOf : Nat → Nat) (nShards nGw : Nat) (k8s : Bool) (ops : List Op)
+theorem loop_no_overcommit_agreed (shardOf : Nat → Nat) (nShards nGw nUp : Nat) (k8s : Bool) (ops : List Op)
     (hops : ∀ op ∈ ops, OpOK op) (u : Nat) (e : UpStore) (T : Int)
-    (he : aget (reach shardOf nShards nGw k8s ops).srv.ups u = some e)
+    (he : aget (reach shardOf nShards nGw nUp k8s ops).srv.ups u = some e)
     (hT : e.srv.total = T) (hhi : e.hi = T)
-    (hview : ∀ g ∈ liveObs (reach shardOf nShards nGw k8s ops) u, g.view = T)
-    (hnofb : ∀ g ∈ liveObs (reach shardOf nShards nGw k8s ops) u, g.remote = true)
-    (hdist : ((liveObs (reach shardOf nShards nGw k8s ops) u).map (·.id)).Nodup)
-    (hsync : ∀ g ∈ liveObs (reach shardOf nShards nGw k8s ops) u, holdsRecord e.srv.quotas g = true) :
-    ((liveObs (reach shardOf nShards nGw k8s ops) u).map (·.enforced)).sum ≤ T + onesQ e.srv.quotas ∧
-    ∀ g ∈ liveObs (reach shardOf nShards nGw k8s ops) u, 0 ≤ g.enforced ∧ g.enforced ≤ T := by
-  have hfil : (liveObs (reach shardOf nShards nGw k8s ops) u).filter (·.remote)
-      = liveObs (reach shardOf nShards nGw k8s ops) u := by
+    (hview : ∀ g ∈ liveObs (reach shardOf nShards nGw nUp k8s ops) u, g.view = T)
+    (hnofb : ∀ g ∈ liveObs (reach shardOf nShards nGw nUp k8s ops) u, g.remote = true)
+    (hdist : ((liveObs (reach shardOf nShards nGw nUp k8s ops) u).map (·.id)).Nodup)
+    (hsync : ∀ g ∈ liveObs (reach shardOf nShards nGw nUp k8s ops) u, holdsRecord e.srv.quotas g = true) :
+    ((liveObs (reach shardOf nShards nGw nUp k8s ops) u).map (·.enforced)).sum ≤ T + onesQ e.srv.quotas ∧
+    ∀ g ∈ liveObs (reach shardOf nShards nGw nUp k8s ops) u, 0 ≤ g.enforced ∧ g.enforced ≤ T := by
+  have hfil : (liveObs (reach shardOf nShards nGw nUp k8s ops) u).filter (·.remote)
+      = liveObs (reach shardOf nShards nGw nUp k8s ops) u := by
     rw [List.filter_eq_self]; exact hnofb
-  have h := loop_no_overcommit shardOf nShards nGw k8s ops hops u e he (by rw [hfil]; exact hdist)
+  have h := loop_no_overcommit shardOf nShards nGw nUp k8s ops hops u e he (by rw [hfil]; exact hdist)
     (fun g hg _ => hsync g hg)
   constructor
-  · have : sumRemote (liveObs (reach shardOf nShards nGw k8s ops) u)
-        = ((liveObs (reach shardOf nShards nGw k8s ops) u).map (·.enforced)).sum := by
+  · have : sumRemote (liveObs (reach shardOf nShards nGw nUp k8s ops) u)
+        = ((liveObs (reach shardOf nShards nGw nUp k8s ops) u).map (·.enforced)).sum := by
       unfold sumRemote; rw [hfil]
     rw [this, hhi] at h; exact h
   · -- each one is within its own view, which is T: it holds a recorded quota (≥ 1), bounded to [0, view]
     intro g hg
-    have hj := loop_judge shardOf nShards nGw k8s ops hops u
-    have hinv := loop_inv shardOf nShards nGw k8s ops hops
-    generalize reach shardOf nShards nGw k8s ops = s at *
+    have hj := loop_judge shardOf nShards nGw nUp k8s ops hops u
+    have hinv := loop_inv shardOf nShards nGw nUp k8s ops hops
+    generalize reach shardOf nShards nGw nUp k8s ops = s at *
     have hgj : judgeG g = [] := by
       unfold judgeU at hj
       have h1 := (List.append_eq_nil_iff.1 hj).1
@@ -156,6 +157,81 @@ theorem loop_no_overcommit_agreed (shardOf : Nat → Nat) (nShards nGw : Nat) (k
             split at hq <;> omega
           omega
 
+/-- **every served report re-establishes the hypothesis of `loop_no_overcommit`**: right after a report of a live,
+    connected gateway with a schema for `u` was served, the gateway holds exactly what the server has on record for it
+    (and its remote limiter is that quota bounded by its current view). So after a hand-over that discarded the records,
+    or a partition during which a record was reclaimed, one round of served reports restores the system-level bound. -/
+theorem loop_report_establishes_record (shardOf : Nat → Nat) (nShards nGw nUp : Nat) (k8s : Bool) (ops : List Op)
+    (hops : ∀ op ∈ ops, OpOK op) (g u : Nat) (x m : Rat) (used lvl : Int) (gw : Gw) (e : UpStore)
+    (hgw : (reach shardOf nShards nGw nUp k8s ops).gw g = some gw)
+    (hrep : reports (reach shardOf nShards nGw nUp k8s ops).nShards gw u = true) (hnet : gw.net = true)
+    (hserv : (reach shardOf nShards nGw nUp k8s ops).srv.serving shardOf u = some e) :
+    ∃ gw' e' n, (step shardOf (reach shardOf nShards nGw nUp k8s ops) (.report g u x m used lvl)).gw g = some gw' ∧
+      aget (step shardOf (reach shardOf nShards nGw nUp k8s ops) (.report g u x m used lvl)).srv.ups u = some e' ∧
+      gw'.id = gw.id ∧ e'.srv.quotas.lookup gw.id = some n ∧
+      raw (gw'.st (reach shardOf nShards nGw nUp k8s ops).nShards u) = some n ∧
+      gw'.fresh.contains u = true := by
+  have hinv := loop_inv shardOf nShards nGw nUp k8s ops hops
+  generalize reach shardOf nShards nGw nUp k8s ops = s at *
+  have hgi := hinv.gws gw (gw_mem hgw)
+  have hcache : ((gw.st s.nShards u).cache).isSome = true := by
+    simp only [reports, Bool.and_eq_true] at hrep; exact hrep.2
+  obtain ⟨st0, hu, hst0⟩ := entry_of_cache hcache
+  -- the server's side
+  have hsr : s.srv.report shardOf u gw.id x m used lvl
+      = (({ s.srv with ups := aset s.srv.ups u (e.report gw.id x m used lvl) } : Server).persist,
+         some ((e.report gw.id x m used lvl).quotaOf gw.id)) := by
+    simp only [Server.report, hserv]
+  -- the gateway's side
+  rcases step_answer (hgi.ok u) ((e.report gw.id x m used lvl).quotaOf gw.id) with
+    ⟨hnone, _⟩ | ⟨c, l, t, st', c', hc, hloc, t0, t1, hstep, hst, hloc', hrem⟩
+  · rw [hnone] at hcache; cases hcache
+  · rw [hst0] at hstep
+    have hlen : g < s.gws.length := by
+      simp only [State.gw] at hgw
+      exact (List.getElem?_eq_some_iff.1 hgw).1
+    have hnr : (!(reports s.nShards gw u && gw.net)) = false := by rw [hrep, hnet]; rfl
+    have hstepEq : step shardOf s (.report g u x m used lvl)
+        = { (s.setGw g { gw.apply s.nShards u (.answer true (mkItem ((e.report gw.id x m used lvl).quotaOf gw.id))) with
+              fresh := if gw.fresh.contains u then gw.fresh else u :: gw.fresh }) with
+            srv := ({ s.srv with ups := aset s.srv.ups u (e.report gw.id x m used lvl) } : Server).persist } := by
+      simp only [step, hgw, hnr, Bool.false_eq_true, if_false, hsr]
+    rw [hstepEq]
+    refine ⟨{ gw.apply s.nShards u (.answer true (mkItem ((e.report gw.id x m used lvl).quotaOf gw.id))) with
+        fresh := if gw.fresh.contains u then gw.fresh else u :: gw.fresh },
+      e.report gw.id x m used lvl, (e.report gw.id x m used lvl).quotaOf gw.id, ?_, ?_, ?_, ?_, ?_, ?_⟩
+    · simp only [State.gw, State.setGw]
+      exact List.getElem?_set_self hlen
+    · show aget (Server.persist _).ups u = _
+      rw [persist_ups]
+      exact aget_aset_self _ _ _
+    · simp [Gw.apply, hu]
+    · -- the record of the reporter is the answer
+      simp only [UpStore.quotaOf, UpStore.report, Alloc.step]
+      have : ∀ (q : List (Nat × Int)) (i : Nat) (v : Int), (setQuota q i v).lookup i = some v := by
+        intro q i v
+        induction q with
+        | nil => simp [setQuota]
+        | cons a rest ih =>
+          obtain ⟨j, w⟩ := a
+          unfold setQuota
+          by_cases hj : j = i
+          · subst hj; simp
+          · have hb : (i == j) = false := by simp; exact fun e => hj e.symm
+            simp only [hj, if_false, List.lookup, hb]; exact ih
+      rw [this, lookupD_setQuota_self]
+    · have hap : (gw.apply s.nShards u (.answer true (mkItem ((e.report gw.id x m used lvl).quotaOf gw.id)))).ups
+          = aset gw.ups u st' := by simp [Gw.apply, hu, stepOr, hstep]
+      have hsu : ({ gw.apply s.nShards u (.answer true (mkItem ((e.report gw.id x m used lvl).quotaOf gw.id))) with
+          fresh := if gw.fresh.contains u then gw.fresh else u :: gw.fresh } : Gw).st s.nShards u = st' := by
+        simp [Gw.st, hap, aget_aset_self]
+      rw [hsu]
+      have hloc2 : c'.loc = ⟨mkSchema l t, some (.mi l)⟩ := by rw [hloc', hloc]
+      exact (obs_remote hst hloc2 hrem).2.2.1
+    · simp only
+      split
+      · assumption
+      · simp
 /-! ## 1b. what each live instance enforces -/
 
 /-- **per instance**: in every reachable state a gateway with a schema for `u` hands out either
@@ -163,21 +239,21 @@ theorem loop_no_overcommit_agreed (shardOf : Nat → Nat) (nShards nGw : Nat) (k
       the quota `q` it holds and reports, and — if it applied an answer since its view `t` of the global limit last
       changed — exactly `q` bounded to `[0, t]`, hence at most its own view (C09); or
     * its local limiter, which enforces exactly its local limit (fallback, C09). -/
-theorem loop_instance (shardOf : Nat → Nat) (nShards nGw : Nat) (k8s : Bool) (ops : List Op)
-    (hops : ∀ op ∈ ops, OpOK op) (gw : Gw) (hgw : gw ∈ (reach shardOf nShards nGw k8s ops).gws) (u : Nat)
-    (hs : ((gw.st (reach shardOf nShards nGw k8s ops).nShards u).cache).isSome = true) :
-    (usesRemote (gw.st (reach shardOf nShards nGw k8s ops).nShards u) = true →
-      RemoteLimiter.isReady (gw.st (reach shardOf nShards nGw k8s ops).nShards u) = true ∧
-      ∃ q b, raw (gw.st (reach shardOf nShards nGw k8s ops).nShards u) = some q ∧
-        applied (gw.st (reach shardOf nShards nGw k8s ops).nShards u) = some b ∧
-        enforced (gw.st (reach shardOf nShards nGw k8s ops).nShards u) = some b ∧ 0 ≤ b ∧ (0 ≤ q → b ≤ q) ∧
+theorem loop_instance (shardOf : Nat → Nat) (nShards nGw nUp : Nat) (k8s : Bool) (ops : List Op)
+    (hops : ∀ op ∈ ops, OpOK op) (gw : Gw) (hgw : gw ∈ (reach shardOf nShards nGw nUp k8s ops).gws) (u : Nat)
+    (hs : ((gw.st (reach shardOf nShards nGw nUp k8s ops).nShards u).cache).isSome = true) :
+    (usesRemote (gw.st (reach shardOf nShards nGw nUp k8s ops).nShards u) = true →
+      RemoteLimiter.isReady (gw.st (reach shardOf nShards nGw nUp k8s ops).nShards u) = true ∧
+      ∃ q b, raw (gw.st (reach shardOf nShards nGw nUp k8s ops).nShards u) = some q ∧
+        applied (gw.st (reach shardOf nShards nGw nUp k8s ops).nShards u) = some b ∧
+        enforced (gw.st (reach shardOf nShards nGw nUp k8s ops).nShards u) = some b ∧ 0 ≤ b ∧ (0 ≤ q → b ≤ q) ∧
         (gw.fresh.contains u = true →
-          ∃ t, view (gw.st (reach shardOf nShards nGw k8s ops).nShards u) = some t ∧ b = bound q t ∧ b ≤ t)) ∧
-    (usesRemote (gw.st (reach shardOf nShards nGw k8s ops).nShards u) = false →
-      ∃ l, localLimit (gw.st (reach shardOf nShards nGw k8s ops).nShards u) = some l ∧
-        enforced (gw.st (reach shardOf nShards nGw k8s ops).nShards u) = some l ∧ 0 ≤ l) := by
-  have hinv := loop_inv shardOf nShards nGw k8s ops hops
-  generalize reach shardOf nShards nGw k8s ops = s at *
+          ∃ t, view (gw.st (reach shardOf nShards nGw nUp k8s ops).nShards u) = some t ∧ b = bound q t ∧ b ≤ t)) ∧
+    (usesRemote (gw.st (reach shardOf nShards nGw nUp k8s ops).nShards u) = false →
+      ∃ l, localLimit (gw.st (reach shardOf nShards nGw nUp k8s ops).nShards u) = some l ∧
+        enforced (gw.st (reach shardOf nShards nGw nUp k8s ops).nShards u) = some l ∧ 0 ≤ l) := by
+  have hinv := loop_inv shardOf nShards nGw nUp k8s ops hops
+  generalize reach shardOf nShards nGw nUp k8s ops = s at *
   have hgi := hinv.gws gw hgw
   cases hc : (gw.st s.nShards u).cache with
   | none => rw [hc] at hs; cases hs
@@ -213,18 +289,18 @@ theorem loop_instance (shardOf : Nat → Nat) (nShards nGw : Nat) (k8s : Bool) (
     leads or led, and every copy in the API that the next holder of the shard will load — satisfies C07's history
     invariant relative to the largest limit in force since the record began: every quota ≥ 1, sum ≤ recorded sum,
     `sum ≤ hi + #(quotas equal to 1)`, `1 ≤ limit ≤ hi`. -/
-theorem loop_recorded (shardOf : Nat → Nat) (nShards nGw : Nat) (k8s : Bool) (ops : List Op)
+theorem loop_recorded (shardOf : Nat → Nat) (nShards nGw nUp : Nat) (k8s : Bool) (ops : List Op)
     (hops : ∀ op ∈ ops, OpOK op) :
-    (∀ p ∈ (reach shardOf nShards nGw k8s ops).srv.ups, SInv p.2) ∧
-    (∀ p ∈ (reach shardOf nShards nGw k8s ops).srv.api, SInv p.2) :=
-  ⟨(loop_inv shardOf nShards nGw k8s ops hops).srv.ups, (loop_inv shardOf nShards nGw k8s ops hops).srv.api⟩
+    (∀ p ∈ (reach shardOf nShards nGw nUp k8s ops).srv.ups, SInv p.2) ∧
+    (∀ p ∈ (reach shardOf nShards nGw nUp k8s ops).srv.api, SInv p.2) :=
+  ⟨(loop_inv shardOf nShards nGw nUp k8s ops hops).srv.ups, (loop_inv shardOf nShards nGw nUp k8s ops hops).srv.api⟩
 
 /-- … which is exactly `KG.Props.C07.Inv` (sum ≤ limit + #ones) for every record whose limit was never lowered -/
-theorem loop_c07_inv (shardOf : Nat → Nat) (nShards nGw : Nat) (k8s : Bool) (ops : List Op)
+theorem loop_c07_inv (shardOf : Nat → Nat) (nShards nGw nUp : Nat) (k8s : Bool) (ops : List Op)
     (hops : ∀ op ∈ ops, OpOK op) (p : Nat × UpStore)
-    (hp : p ∈ (reach shardOf nShards nGw k8s ops).srv.ups ∨ p ∈ (reach shardOf nShards nGw k8s ops).srv.api)
+    (hp : p ∈ (reach shardOf nShards nGw nUp k8s ops).srv.ups ∨ p ∈ (reach shardOf nShards nGw nUp k8s ops).srv.api)
     (hnl : p.2.hi = p.2.srv.total) : KG.Props.C07.Inv p.2.srv := by
-  obtain ⟨h1, h2⟩ := loop_recorded shardOf nShards nGw k8s ops hops
+  obtain ⟨h1, h2⟩ := loop_recorded shardOf nShards nGw nUp k8s ops hops
   rcases hp with hp | hp
   · exact sinv_c07 (h1 p hp) hnl
   · exact sinv_c07 (h2 p hp) hnl
@@ -243,12 +319,12 @@ theorem loop_over_report (shardOf : Nat → Nat) (s : Server) (u i : Nat) (x m :
   ⟨_, report_answer shardOf s u i x m used lvl e he, KG.Props.C07.c07_over_report e.srv i x m hover⟩
 
 /-- every quota ever answered is within `[1, limit]` of the record it is answered from -/
-theorem loop_answer_range (shardOf : Nat → Nat) (nShards nGw : Nat) (k8s : Bool) (ops : List Op)
+theorem loop_answer_range (shardOf : Nat → Nat) (nShards nGw nUp : Nat) (k8s : Bool) (ops : List Op)
     (hops : ∀ op ∈ ops, OpOK op) (u i : Nat) (x m : Rat) (used lvl : Int) (e : UpStore)
-    (he : (reach shardOf nShards nGw k8s ops).srv.serving shardOf u = some e) :
-    ∃ n, ((reach shardOf nShards nGw k8s ops).srv.report shardOf u i x m used lvl).2 = some n ∧
+    (he : (reach shardOf nShards nGw nUp k8s ops).srv.serving shardOf u = some e) :
+    ∃ n, ((reach shardOf nShards nGw nUp k8s ops).srv.report shardOf u i x m used lvl).2 = some n ∧
       1 ≤ n ∧ n ≤ e.srv.total := by
-  have hinv := loop_inv shardOf nShards nGw k8s ops hops
+  have hinv := loop_inv shardOf nShards nGw nUp k8s ops hops
   refine ⟨_, report_answer shardOf _ u i x m used lvl e he, ?_⟩
   rw [KG.Props.C07.answer_eq]
   exact KG.Props.C07.c07_range x m _ _ _ (hinv.srv.ups _ (serving_mem shardOf he)).limit
@@ -380,9 +456,9 @@ becomes the instance's condition, labelled or not; the `.state` condition carrie
 loop's ops commute with C18's. -/
 
 /-- in every reachable state every recorded upstream is in the lister (what the unknown pass needs to leave upstreams alone) -/
-theorem loop_listed (shardOf : Nat → Nat) (nShards nGw : Nat) (k8s : Bool) (ops : List Op) :
-    ∀ p ∈ (reach shardOf nShards nGw k8s ops).srv.ups, ∃ t, aget (reach shardOf nShards nGw k8s ops).srv.listed p.1 = some t :=
-  (ls_run shardOf ops (init nShards nGw k8s) ⟨by simp [init], by simp [init]⟩).ups
+theorem loop_listed (shardOf : Nat → Nat) (nShards nGw nUp : Nat) (k8s : Bool) (ops : List Op) :
+    ∀ p ∈ (reach shardOf nShards nGw nUp k8s ops).srv.ups, ∃ t, aget (reach shardOf nShards nGw nUp k8s ops).srv.listed p.1 = some t :=
+  (ls_run shardOf ops (init nShards nGw nUp k8s) ⟨by simp [init], by simp [init]⟩).ups
 
 /-- C18's `c18_timeout_pass_reclaims` and `c18_live_safe_timeout_pass` hold of the loop's time-out pass, in ANY state -/
 theorem loop_c18_timeout_pass (N : Naming) (shardOf : Nat → Nat) (hsh : ∀ u, N.shardOf' (N.un u) = shardOf u)
@@ -396,12 +472,12 @@ theorem loop_c18_timeout_pass (N : Naming) (shardOf : Nat → Nat) (hsh : ∀ u,
 /-- C18's `c18_unknown_pass_reclaims` and `c18_live_safe_unknown_pass` hold of the loop's unknown pass in every
     reachable state -/
 theorem loop_c18_unknown_pass (N : Naming) (shardOf : Nat → Nat) (hsh : ∀ u, N.shardOf' (N.un u) = shardOf u)
-    (nShards nGw : Nat) (k8s : Bool) (ops : List Op) :
-    KG.Spec.Reclaim.ReclaimUnknown N.shardOf' (toReclaim N shardOf (reach shardOf nShards nGw k8s ops).srv)
-      (toReclaim N shardOf ((reach shardOf nShards nGw k8s ops).srv.cleanupUnknown shardOf)) ∧
-    KG.Spec.Reclaim.LiveSafeUnknown (toReclaim N shardOf (reach shardOf nShards nGw k8s ops).srv)
-      (toReclaim N shardOf ((reach shardOf nShards nGw k8s ops).srv.cleanupUnknown shardOf)) := by
-  rw [toReclaim_cleanupUnknown N shardOf hsh _ (loop_listed shardOf nShards nGw k8s ops)]
+    (nShards nGw nUp : Nat) (k8s : Bool) (ops : List Op) :
+    KG.Spec.Reclaim.ReclaimUnknown N.shardOf' (toReclaim N shardOf (reach shardOf nShards nGw nUp k8s ops).srv)
+      (toReclaim N shardOf ((reach shardOf nShards nGw nUp k8s ops).srv.cleanupUnknown shardOf)) ∧
+    KG.Spec.Reclaim.LiveSafeUnknown (toReclaim N shardOf (reach shardOf nShards nGw nUp k8s ops).srv)
+      (toReclaim N shardOf ((reach shardOf nShards nGw nUp k8s ops).srv.cleanupUnknown shardOf)) := by
+  rw [toReclaim_cleanupUnknown N shardOf hsh _ (loop_listed shardOf nShards nGw nUp k8s ops)]
   exact ⟨KG.Props.C18.c18_unknown_pass_reclaims N.shardOf' _, KG.Props.C18.c18_live_safe_unknown_pass N.shardOf' _⟩
 
 /-- C18's `c18_heartbeat_recorded` holds of the loop's heartbeat -/
@@ -518,30 +594,52 @@ theorem frame_report (shardOf : Nat → Nat) (s : State) (g u : Nat) (x m : Rat)
 so every theorem of `KG.Props.C09` about reachable states / runs applies to every gateway of every reachable loop state -/
 
 /-- **projection theorem**: after every history, the state of every `upstreamLimiter` of every gateway is a state
-    that C09's model reaches by an operation list inside C09's quantifier -/
-theorem loop_gateway_projection (shardOf : Nat → Nat) (nShards nGw : Nat) (k8s : Bool) (ops : List Op)
-    (hops : ∀ op ∈ ops, OpOK op) (gw : Gw) (hgw : gw ∈ (reach shardOf nShards nGw k8s ops).gws) (u : Nat) :
-    GwReach (gw.st (reach shardOf nShards nGw k8s ops).nShards u) :=
-  (rinv_run shardOf ops _ (rinv_init nShards nGw k8s) hops).reach gw hgw u
+    that C09's model reaches (`exec {} log`) by an operation list inside C09's quantifier (`C09Ok` = the clauses of
+    `KG.Props.C09.Allowed .mi`) -/
+theorem loop_gateway_projection (shardOf : Nat → Nat) (nShards nGw nUp : Nat) (k8s : Bool) (ops : List Op)
+    (hops : ∀ op ∈ ops, OpOK op) (gw : Gw) (hgw : gw ∈ (reach shardOf nShards nGw nUp k8s ops).gws) (u : Nat) :
+    GwReach (gw.st (reach shardOf nShards nGw nUp k8s ops).nShards u) :=
+  (rinv_run shardOf ops _ (rinv_init nShards nGw nUp k8s) hops).reach gw hgw u
+
+/-- C09's `c09_fallback_choice`, in the loop (for ANY limiter state): the remote limiter is handed out only while the
+    client set is ready and a remote limiter was synced — a gateway that cannot reach the limiter server for longer
+    than the server heartbeat time-out hands out its local limiter -/
+theorem loop_fallback (st : RemoteLimiter.State) (h : usesRemote st = true) :
+    RemoteLimiter.isReady st = true ∧ ∃ c, st.cache = some c ∧ c.remote.isSome = true := by
+  simp only [usesRemote, beq_iff_eq] at h
+  unfold RemoteLimiter.load at h
+  cases hc : st.cache with
+  | none => simp [hc] at h
+  | some c =>
+    simp only [hc, gwCfg] at h
+    by_cases h1 : c.loc.config.strategy = .empty
+    · simp [h1] at h
+    · by_cases h2 : c.loc.config.strategy = .loc
+      · simp [h2] at h
+      · cases hr : RemoteLimiter.isReady st with
+        | false => simp [h1, h2, hr] at h
+        | true =>
+          cases hrem : c.remote.isSome with
+          | false => simp [h1, h2, hr, hrem] at h
+          | true => exact ⟨rfl, c, rfl, hrem⟩
+
+/-- the loop's projection is inside C09's quantifier -/
+theorem gwReach_allowed {st : RemoteLimiter.State} (h : GwReach st) :
+    ∃ log, KG.Props.C09.Allowed .mi log ∧ RemoteLimiter.exec {} log = some st := by
+  obtain ⟨log, h1, h2⟩ := h
+  refine ⟨log, ?_, h2⟩
+  intro op hop
+  have := h1 op hop
+  cases op <;> first | exact this | trivial
 
 /-- C09's `c09_local_limit`, lifted: in every reachable loop state the local limiter of every gateway enforces exactly
     the local limit of the schema in force (what the gateway falls back to when the limiter server is unreachable) -/
-theorem loop_c09_local_limit (shardOf : Nat → Nat) (nShards nGw : Nat) (k8s : Bool) (ops : List Op)
-    (hops : ∀ op ∈ ops, OpOK op) (gw : Gw) (hgw : gw ∈ (reach shardOf nShards nGw k8s ops).gws) (u : Nat)
-    (c : RemoteLimiter.Cache) (hc : (gw.st (reach shardOf nShards nGw k8s ops).nShards u).cache = some c) :
+theorem loop_c09_local_limit (shardOf : Nat → Nat) (nShards nGw nUp : Nat) (k8s : Bool) (ops : List Op)
+    (hops : ∀ op ∈ ops, OpOK op) (gw : Gw) (hgw : gw ∈ (reach shardOf nShards nGw nUp k8s ops).gws) (u : Nat)
+    (c : RemoteLimiter.Cache) (hc : (gw.st (reach shardOf nShards nGw nUp k8s ops).nShards u).cache = some c) :
     KG.Spec.RemoteLimiter.validSchema c.loc.config = true ∧ c.loc.fc = some (KG.Spec.RemoteLimiter.limOf c.loc.config) := by
-  obtain ⟨log, h1, h2⟩ := loop_gateway_projection shardOf nShards nGw k8s ops hops gw hgw u
+  obtain ⟨log, h1, h2⟩ := gwReach_allowed (loop_gateway_projection shardOf nShards nGw nUp k8s ops hops gw hgw u)
   exact KG.Props.C09.c09_local_limit .mi gwCfg log h1 _ h2 c hc
-
-/-- C09's `c09_fallback_choice`, in the loop: the remote limiter is handed out only while the client set is ready and
-    a remote limiter was synced — a gateway that cannot reach the limiter server for longer than the server
-    heartbeat time-out enforces its local limit -/
-theorem loop_c09_fallback (st : RemoteLimiter.State) (h : usesRemote st = true) :
-    RemoteLimiter.isReady st = true ∧ ∃ c, st.cache = some c ∧ c.remote.isSome = true := by
-  have hl : RemoteLimiter.load gwCfg st = .remote := by
-    simp only [usesRemote, beq_iff_eq] at h; exact h
-  obtain ⟨c, hc, _, _, _, _, hr, hrem⟩ := KG.Props.C09.c09_fallback_choice gwCfg st hl
-  exact ⟨hr, c, hc, hrem⟩
 
 /-! ## 6. histories that never lower a configured limit: the lift of `c07_history` with its `Legal` hypothesis -/
 
@@ -550,13 +648,13 @@ theorem loop_c09_fallback (st : RemoteLimiter.State) (h : usesRemote st = true) 
     passes, crashes and returns, partitions, leadership flaps with the store discarded or reloaded from the API, limit
     raises delivered at any time — every record of the server (and every API copy) satisfies `KG.Props.C07.Inv`:
     every quota ≥ 1, `sum ≤ limit + #(quotas equal to 1)`, `sum ≤ recorded sum`. -/
-theorem loop_c07_history (shardOf : Nat → Nat) (nShards nGw : Nat) (k8s : Bool) (ops : List Op)
+theorem loop_c07_history (shardOf : Nat → Nat) (nShards nGw nUp : Nat) (k8s : Bool) (ops : List Op)
     (hops : ∀ op ∈ ops, OpOK op) (hnl : NoLower [] ops) (p : Nat × UpStore)
-    (hp : p ∈ (reach shardOf nShards nGw k8s ops).srv.ups ∨ p ∈ (reach shardOf nShards nGw k8s ops).srv.api) :
+    (hp : p ∈ (reach shardOf nShards nGw nUp k8s ops).srv.ups ∨ p ∈ (reach shardOf nShards nGw nUp k8s ops).srv.api) :
     KG.Props.C07.Inv p.2.srv := by
-  have hn : NLInv (reach shardOf nShards nGw k8s ops).srv :=
-    nl_run shardOf ops (init nShards nGw k8s) ⟨by simp [init], by simp [init]⟩ hnl
-  apply loop_c07_inv shardOf nShards nGw k8s ops hops p hp
+  have hn : NLInv (reach shardOf nShards nGw nUp k8s ops).srv :=
+    nl_run shardOf ops (init nShards nGw nUp k8s) ⟨by simp [init], by simp [init]⟩ hnl
+  apply loop_c07_inv shardOf nShards nGw nUp k8s ops hops p hp
   rcases hp with hp | hp
   · exact (hn.ups p hp).1
   · exact (hn.api p hp).1
@@ -571,7 +669,7 @@ def exOps : List Op :=
   [ .list 0 64, .gain 0, .gwSchema 0 0 4 64, .gwSchema 1 0 4 64, .hb 0 0, .hb 1 0,
     .report 0 0 40 1 30 46, .report 1 0 40 1 20 78, .report 0 0 40 1 40 93 ]
 
-def exS : State := reach exShard 1 2 false exOps
+def exS : State := reach exShard 1 2 1 false exOps
 
 def exE : UpStore := ⟨⟨64, 64, [(0, 40), (1, 24)]⟩, 64, 93, [0], [(0, 40), (1, 20)]⟩
 
@@ -590,7 +688,7 @@ def exOps2 : List Op :=
   exOps ++ [ .report 1 0 24 1 24 100, .net 1 false, .hb 0 3500, .hb 1 3500, .tick 3600, .report 0 0 64 1 40 62,
              .report 0 0 64 1 40 62, .hb 1 9000 ]
 
-def exS2 : State := reach exShard 1 2 false exOps2
+def exS2 : State := reach exShard 1 2 1 false exOps2
 
 /-- the time-out pass reclaimed gateway 1's (labelled) record; gateway 0's next report recomputed the sum (40), the one
     after grew into ALL of the freed capacity (64), never beyond the limit; gateway 1, unreachable for more than the
@@ -606,7 +704,7 @@ example : judgeU (obsU exS2 0) = [] := by decide +kernel
 example : (liveObs exS2 0).map (holdsRecord [(0, 64)]) = [true, false] := by decide +kernel
 
 /-- the hypotheses of `loop_timeout_pass_reclaims` / `loop_reclaimed_capacity` are met by a concrete server state -/
-example : (reach exShard 1 2 false (exOps ++ [.report 1 0 24 1 24 100, .net 1 false, .hb 0 3500, .hb 1 3500])).srv.hb
+example : (reach exShard 1 2 1 false (exOps ++ [.report 1 0 24 1 24 100, .net 1 false, .hb 0 3500, .hb 1 3500])).srv.hb
     = [(1, 0), (0, 3500)] := by decide +kernel
 example : timedOut 3600 (1, 0) = true ∧ timedOut 3600 (0, 3500) = false := by decide
 
